@@ -213,3 +213,24 @@ Definition h3_exchange (is_head : bool) (heads : list h3head) (parts : list byte
                   m_api := run_mode m code sizes rd |}
       end
   end.
+
+(* ---------------- several streams on one HTTP/2 connection ---------------- *)
+(* What the peer sends on the connection: frames of the individual response streams, in any
+   interleaving, and connection-level frames in between.  clientConnReadLoop dispatches by
+   stream id (streamByID); PING and a graceful GOAWAY (last-stream-id covering the stream)
+   do not touch a stream; a GOAWAY whose last-stream-id is below the stream's id aborts it. *)
+Inductive conn_ev :=
+| CFrame (sid : N) (e : h2ev)
+| CGoAway (last : N)
+| CPing.
+
+Definition stream_view (sid : N) (l : list conn_ev) : list h2ev :=
+  flat_map (fun c => match c with
+                     | CFrame s e => if (s =? sid)%N then [e] else []
+                     | CGoAway last => if (sid <=? last)%N then [] else [H2GoAwayClose]
+                     | CPing => []
+                     end) l.
+
+(* what the caller of stream [sid] reads *)
+Definition h2_conn_read (cl : option N) (hdr_end : bool) (sid : N) (l : list conn_ev) : bytes * h2err :=
+  h2_read cl hdr_end (stream_view sid l).
